@@ -119,17 +119,21 @@ def run(ctx):
     ctx.exhaustive = True
     ctx.extra['exhaustive_bound'] = f'all histories of length <= {L} over {len(alphabet)} operations (2 indices), each followed by a fuse'
     # random, biased towards completing cliques
-    for _ in range(ctx.budget(1500, 20000)):
+    for _ in range(ctx.budget(2500, 40000)):
         if ctx.expired():
             break
-        n_idx = rng.randint(1, 5)
+        n_idx = rng.choice([1, 2, 2, 2, 3, 3, 4, 5])
         ops = []
         base_pool = []
-        for _ in range(rng.randint(2, 14)):
+        for _ in range(rng.randint(2, 16)):
             r = rng.random()
-            if r < 0.2:
+            if r < 0.22:
                 ops.append(['f'])
-            elif r < 0.65 and base_pool:
+            elif r < 0.40 and base_pool:
+                # re-insert an earlier tuple exactly (it may have been fused away meanwhile)
+                t = [list(d) for d in rng.choice(base_pool)]
+                ops.append(['i', t])
+            elif r < 0.75 and base_pool:
                 # vary one index of an earlier tuple (builds cliques)
                 t = [list(d) for d in rng.choice(base_pool)]
                 if t:
@@ -138,7 +142,7 @@ def run(ctx):
                 ops.append(['i', t])
                 base_pool.append(t)
             else:
-                idxs = sorted(rng.sample(range(n_idx), rng.randint(0, n_idx)))
+                idxs = sorted(rng.sample(range(n_idx), rng.randint(0 if rng.random() < 0.1 else 1, n_idx)))
                 t = [[rng.randrange(3), i] for i in idxs]
                 ops.append(['i', t])
                 base_pool.append(t)
